@@ -8,6 +8,10 @@
 (* A stream of frames, frame k having Shape[k] packets, is sent in order.  *)
 (* For each original packet the network chooses: deliver, drop, duplicate, *)
 (* or swap with its successor (at most MaxFaults faults per stream).       *)
+(* Besides these isolated faults a stream may suffer one BURST: the same   *)
+(* loss in up to MaxBurst consecutive frames (the first, a middle, the     *)
+(* last/marker packet of each, or each frame whole) - what a periodic      *)
+(* disturbance does. A burst is chosen with the shape and costs no fault.  *)
 (* The decoder keeps (assembling frame, next fragment index, last sequence *)
 (* number):                                                                *)
 (*   single packet frame : returned at once, fragments discarded           *)
@@ -22,9 +26,11 @@
 EXTENDS PayloadProp, TLC, Json
 
 CONSTANTS Shapes,      \* set of shapes; a shape is a tuple of packets-per-frame
-          MaxFaults
+          MaxFaults,
+          MaxBurst     \* longest burst, in frames (0: no bursts)
 
 VARIABLES shape,       \* the chosen shape
+          burst,       \* the chosen burst: [cls, from, to], cls = "none" without one
           pos,         \* index (1-based, flattened) of the next original packet
           faults,      \* faults used so far
           asmF, asmNext, lastSeq,   \* decoder state
@@ -33,13 +39,25 @@ VARIABLES shape,       \* the chosen shape
           held,        \* packet held back by a swap, or 0
           beh
 
-dvars == <<shape, pos, faults, asmF, asmNext, lastSeq, asmOk, ops, held, beh>>
+dvars == <<shape, burst, pos, faults, asmF, asmNext, lastSeq, asmOk, ops, held, beh>>
 
 \* flattened stream: packet p -> [f, i, n]
 RECURSIVE Flat(_, _)
 Flat(sh, k) == IF k > Len(sh) THEN <<>>
                ELSE [i \in 1..sh[k] |-> [f |-> k, i |-> i - 1, n |-> sh[k]]] \o Flat(sh, k + 1)
 Stream == Flat(shape, 1)
+
+\* packets removed by the burst
+BurstClasses == {"first", "mid", "last", "whole"}
+Hit(pk) ==
+  /\ burst.cls # "none" /\ pk.f >= burst.from /\ pk.f <= burst.to
+  /\ CASE burst.cls = "first" -> pk.i = 0 /\ pk.n > 1
+       [] burst.cls = "last"  -> pk.i = pk.n - 1 /\ pk.n > 1
+       [] burst.cls = "mid"   -> pk.i > 0 /\ pk.i < pk.n - 1
+       [] OTHER               -> TRUE
+Bursts(sh) ==
+  {[cls |-> "none", from |-> 0, to |-> 0]} \cup
+  {[cls |-> c, from |-> a, to |-> b] : c \in BurstClasses, a \in 1..Len(sh), b \in 1..Len(sh)}
 
 \* decoder reaction to packet number p of the original stream (its sequence number is p)
 Answer(p) ==
@@ -61,6 +79,7 @@ FeedPkt(p) ==
 Init ==
   /\ PInit
   /\ shape \in Shapes /\ pos = 1 /\ faults = 0
+  /\ burst \in {b \in Bursts(shape) : b.cls = "none" \/ (b.to > b.from /\ b.to < b.from + MaxBurst)}
   /\ asmF = 0 /\ asmNext = 0 /\ lastSeq = 0 /\ asmOk = FALSE /\ ops = <<>> /\ held = 0 /\ beh = ""
 
 Total == Len(Stream)
@@ -72,38 +91,47 @@ Finish(o) ==
 \* network choices for original packet number pos
 Deliver ==
   /\ pos <= Total
-  /\ FeedPkt(pos) /\ pos' = pos + 1 /\ UNCHANGED <<shape, faults, held>>
+  /\ FeedPkt(pos) /\ pos' = pos + 1 /\ UNCHANGED <<shape, burst, faults, held>>
   /\ Finish("ok")
 
 Drop ==
   /\ pos <= Total /\ faults < MaxFaults
   /\ pos' = pos + 1 /\ faults' = faults + 1
-  /\ UNCHANGED <<pvars, shape, asmF, asmNext, lastSeq, asmOk, held>>
+  /\ UNCHANGED <<pvars, shape, burst, asmF, asmNext, lastSeq, asmOk, held>>
+  /\ Finish("drop")
+
+\* the burst takes this packet (no choice, no fault counted)
+BurstDrop ==
+  /\ pos <= Total
+  /\ pos' = pos + 1
+  /\ UNCHANGED <<pvars, shape, burst, faults, asmF, asmNext, lastSeq, asmOk, held>>
   /\ Finish("drop")
 
 \* duplicate: delivered now, and once more right away (two decoder steps: Dup then DupSecond)
 Dup ==
   /\ pos <= Total /\ faults < MaxFaults /\ held = 0
   /\ FeedPkt(pos) /\ held' = pos /\ faults' = faults + 1
-  /\ UNCHANGED <<shape, pos, ops, beh>>
+  /\ UNCHANGED <<shape, burst, pos, ops, beh>>
 DupSecond ==
   /\ held # 0 /\ held = pos
-  /\ FeedPkt(pos) /\ held' = 0 /\ pos' = pos + 1 /\ UNCHANGED <<shape, faults>>
+  /\ FeedPkt(pos) /\ held' = 0 /\ pos' = pos + 1 /\ UNCHANGED <<shape, burst, faults>>
   /\ Finish("dup")
 
 \* swap with the successor: successor first (SwapA), then this one (SwapB)
 SwapA ==
-  /\ pos < Total /\ faults < MaxFaults /\ held = 0
+  /\ pos < Total /\ faults < MaxFaults /\ held = 0 /\ ~Hit(Stream[pos + 1])
   /\ FeedPkt(pos + 1) /\ held' = pos + 1 /\ faults' = faults + 1
-  /\ UNCHANGED <<shape, pos, ops, beh>>
+  /\ UNCHANGED <<shape, burst, pos, ops, beh>>
 SwapB ==
   /\ held # 0 /\ held = pos + 1
-  /\ FeedPkt(pos) /\ held' = 0 /\ pos' = pos + 2 /\ UNCHANGED <<shape, faults>>
+  /\ FeedPkt(pos) /\ held' = 0 /\ pos' = pos + 2 /\ UNCHANGED <<shape, burst, faults>>
   /\ ops' = ops \o <<"swap", "swapped">>
   /\ beh' = IF pos' > Total THEN ToJson([shape |-> shape, ops |-> ops']) ELSE ""
 
 Next ==
-  IF held # 0 THEN (DupSecond \/ SwapB) ELSE (Deliver \/ Drop \/ Dup \/ SwapA)
+  IF held # 0 THEN (DupSecond \/ SwapB)
+  ELSE IF pos <= Total /\ Hit(Stream[pos]) THEN BurstDrop
+  ELSE (Deliver \/ Drop \/ Dup \/ SwapA)
 Spec == Init /\ [][Next]_<<pvars, dvars>>
 
 \* B => A: every answer the decoder model can give next is accepted by Level A
@@ -115,6 +143,7 @@ BImpliesA ==
 
 \* shape sets for the configurations (tuples cannot be written in a .cfg file)
 ShapesQuick == { <<1,3,1,3,1>>, <<3,3,1,1,3>>, <<2,1,2,2,1>> }
+ShapesBurst == { <<3,3,3,3,3,3,3,3,3>>, <<2,2,2,2,2,2,2,2>>, <<1,3,2,3,3,3,2,3,1>> }
 ShapesThorough == { <<1,3,1,3,1,1>>, <<3,3,1,1,3,3>>, <<2,1,2,2,1,2>>, <<3,2,3,3,2,1>>, <<1,1,3,3,3,1>> }
 
 \* at the end nothing eligible is still owed, except possibly the very last frame
